@@ -124,6 +124,15 @@ def names_stored(node) -> Set[str]:
 class _ExprNorm(ast.NodeTransformer):
     def visit_Call(self, node):
         self.generic_visit(node)
+        # operator.attrgetter('a') -> lambda _k: _k.a
+        if ast.unparse(node.func) in ("operator.attrgetter", "attrgetter") and len(node.args) == 1 and not node.keywords \
+                and isinstance(node.args[0], ast.Constant) and isinstance(node.args[0].value, str) and node.args[0].value.isidentifier():
+            return ast.copy_location(ast.Lambda(args=ast.arguments(posonlyargs=[], args=[ast.arg(arg="_k")], kwonlyargs=[], kw_defaults=[], defaults=[]),
+                                                body=ast.Attribute(value=ast.Name(id="_k", ctx=ast.Load()), attr=node.args[0].value, ctx=ast.Load())), node)
+        # getattr(x, 'name') -> x.name
+        if isinstance(node.func, ast.Name) and node.func.id == "getattr" and len(node.args) == 2 and not node.keywords \
+                and isinstance(node.args[1], ast.Constant) and isinstance(node.args[1].value, str) and node.args[1].value.isidentifier():
+            return ast.copy_location(ast.Attribute(value=node.args[0], attr=node.args[1].value, ctx=ast.Load()), node)
         # map(f, S) -> (f(x) for x in S) ; filter(None, S) -> (x for x in S if x) ; filter(lambda v: P, S) -> (v for v in S if P)
         if isinstance(node.func, ast.Name) and node.func.id == "map" and len(node.args) == 2 and not node.keywords \
                 and isinstance(node.args[0], (ast.Name, ast.Attribute)):
@@ -343,6 +352,34 @@ class _ExprNorm(ast.NodeTransformer):
                 used |= names_loaded(g2.iter) | set().union(*[names_loaded(c) for c in g2.ifs]) if g2.ifs else names_loaded(g2.iter)
             used |= (names_loaded(node.key) | names_loaded(node.value)) if isinstance(node, ast.DictComp) else names_loaded(node.elt)
             g.target, g.iter = self._items_target(g.target, g.iter, used)
+        # [E(a, b) for (a, b) in ((a1, b1), (a2, b2)) if C(a, b)]  ->  [*([E1] if C1 else []), *([E2] if C2 else [])]   (literal rows of constants / names)
+        if isinstance(node, ast.ListComp) and len(node.generators) == 1 and isinstance(node.generators[0].iter, (ast.List, ast.Tuple)) \
+                and 1 <= len(node.generators[0].iter.elts) <= 12 and not any(isinstance(x, ast.Starred) for x in node.generators[0].iter.elts):
+            g = node.generators[0]
+            tnames = [t.id for t in g.target.elts] if isinstance(g.target, ast.Tuple) and all(isinstance(t, ast.Name) for t in g.target.elts) else \
+                ([g.target.id] if isinstance(g.target, ast.Name) else None)
+            rows = []
+            if tnames:
+                for row in g.iter.elts:
+                    if len(tnames) == 1 and not isinstance(g.target, ast.Tuple):
+                        rows.append([row])
+                    elif isinstance(row, (ast.Tuple, ast.List)) and len(row.elts) == len(tnames):
+                        rows.append(list(row.elts))
+                    else:
+                        rows = None
+                        break
+            if rows:
+                elts = []
+                for row in rows:
+                    mp = dict(zip(tnames, row))
+                    item = self.visit(subst(node.elt, mp))
+                    if g.ifs:
+                        test = subst(g.ifs[0], mp) if len(g.ifs) == 1 else ast.BoolOp(op=ast.And(), values=[subst(c, mp) for c in g.ifs])
+                        elts.append(ast.Starred(value=ast.IfExp(test=self.visit(test), body=ast.List(elts=[item], ctx=ast.Load()),
+                                                              orelse=ast.List(elts=[], ctx=ast.Load())), ctx=ast.Load()))
+                    else:
+                        elts.append(item)
+                return ast.copy_location(ast.List(elts=elts, ctx=ast.Load()), node)
         # [i for i in X] -> list(X)
         if isinstance(node, ast.ListComp) and len(node.generators) == 1 and not node.generators[0].ifs and isinstance(node.elt, ast.Name) \
                 and isinstance(node.generators[0].target, ast.Name) and node.elt.id == node.generators[0].target.id:
@@ -480,6 +517,26 @@ def norm_block(stmts: list) -> list:
                 continue
         unrolled.append(s)
     stmts = unrolled
+    # for (a, b) in [(E1, E2) for x in S [if C]]: body   ->   for x in S: [if C:] body[a:=E1, b:=E2]
+    relooped = []
+    for s in stmts:
+        if isinstance(s, ast.For) and not s.orelse and isinstance(s.iter, (ast.ListComp, ast.GeneratorExp)) and len(s.iter.generators) == 1:
+            comp, g = s.iter, s.iter.generators[0]
+            tnames = [t.id for t in s.target.elts] if isinstance(s.target, ast.Tuple) and all(isinstance(t, ast.Name) for t in s.target.elts) else \
+                ([s.target.id] if isinstance(s.target, ast.Name) else None)
+            comps = list(comp.elt.elts) if isinstance(comp.elt, ast.Tuple) and tnames and len(tnames) > 1 and len(comp.elt.elts) == len(tnames) else \
+                ([comp.elt] if tnames and len(tnames) == 1 else None)
+            body_binds = set().union(*[names_stored(b) for b in s.body]) if s.body else set()
+            if tnames and comps and not (set(tnames) & body_binds) and not (names_stored(g.target) & (body_binds | set(tnames))):
+                mp = dict(zip(tnames, comps))
+                body = [subst(b, mp) for b in s.body]
+                if g.ifs:
+                    test = g.ifs[0] if len(g.ifs) == 1 else ast.BoolOp(op=ast.And(), values=list(g.ifs))
+                    body = [ast.If(test=test, body=body, orelse=[])]
+                relooped.append(ast.copy_location(ast.For(target=g.target, iter=g.iter, body=body, orelse=[]), s))
+                continue
+        relooped.append(s)
+    stmts = relooped
     # X.extend(E for (a, b) in ((a1, b1), (a2, b2)) [if C])   ->   [if C1:] X.append(E1) ; [if C2:] X.append(E2)
     expanded = []
     for s in stmts:
